@@ -133,6 +133,11 @@ pub(crate) fn serialize_text<'a, N: Normalizer>(
                 change = true;
                 result.push_str("&lt;")
             }
+            // a literal carriage return would be turned into a line feed on reparse
+            '\r' => {
+                change = true;
+                result.push_str("&#xD;")
+            }
             '>' if !unescaped_gt => {
                 change = true;
                 result.push_str("&gt;")
@@ -239,6 +244,19 @@ pub(crate) fn serialize_attribute<'a, N: Normalizer>(
             '"' => {
                 change = true;
                 result.push_str("&quot;")
+            }
+            // literal whitespace other than space is normalized away on reparse
+            '\t' => {
+                change = true;
+                result.push_str("&#x9;")
+            }
+            '\n' => {
+                change = true;
+                result.push_str("&#xA;")
+            }
+            '\r' => {
+                change = true;
+                result.push_str("&#xD;")
             }
             _ => result.push(c),
         }
